@@ -804,6 +804,12 @@ impl Lowerer {
             let input_id = exprs.target_id.as_ref().unwrap();
             let id_mapping = self.node_mapping.get(input_id).unwrap();
             let input_columns = id_mapping.as_input().unwrap();
+            // verification hook: a reference to a whole input, read as all of its columns in instance order
+            #[cfg(prqlc_verif)]
+            verif_op(
+                "lookup_all",
+                serde_json::json!({"node": input_id, "cids": input_columns.iter().sorted_by_key(|c| c.1 .1).map(|(_, (cid, _))| *cid).collect_vec()}),
+            );
             return Ok(input_columns
                 .iter()
                 .sorted_by_key(|c| c.1 .1)
@@ -1135,6 +1141,9 @@ impl Lowerer {
     }
 
     fn lookup_cid(&mut self, id: usize, name: Option<&String>) -> Result<CId> {
+        // verification hook: the read (node id, column name); `lookup_out` follows when it succeeds
+        #[cfg(prqlc_verif)]
+        verif_op("lookup_in", serde_json::json!({"node": id, "name": name}));
         let cid = match self.node_mapping.get(&id) {
             Some(LoweredTarget::Compute(cid)) => *cid,
             Some(LoweredTarget::Input(input_columns)) => {
@@ -1167,6 +1176,8 @@ impl Lowerer {
             }
         };
 
+        #[cfg(prqlc_verif)]
+        verif_op("lookup_out", serde_json::json!({"cid": cid}));
         Ok(cid)
     }
 }
